@@ -380,3 +380,189 @@ Lemma ex_lookups :
   (* com, no VIP, no default -> ErrNoProduct *)
   lookup_product ex_tbl [([49], [118])] [] [99;111;109] None = PErrNoProduct.
 Proof. vm_compute. repeat split; reflexivity. Qed.
+
+(* ================= natural labels: tie of the reversed-string preprocessing to plain label lists ================= *)
+(* rv: reverse the label order and every label (what ReverseFqdnHost + Split do to the natural labels) *)
+Definition rv (ls : list bytes) : list bytes := rev (map (@rev Z) ls).
+
+Lemma split_nonempty c l : exists cur rest, split_byte c l = cur :: rest.
+Proof.
+  pose proof (split_byte_nonempty c l) as H. destruct (split_byte c l) as [|cur rest]; [congruence|].
+  exists cur, rest. reflexivity.
+Qed.
+Lemma split_cons c x s : split_byte c (x :: s) =
+  match split_byte c s with
+  | cur :: rest => if x =? c then [] :: cur :: rest else (x :: cur) :: rest
+  | [] => [[]]
+  end.
+Proof. reflexivity. Qed.
+(* strings.Split distributes over concatenation by gluing the boundary fields *)
+Lemma split_app c a : forall b',
+  split_byte c (a ++ b') =
+  removelast (split_byte c a) ++ [last (split_byte c a) [] ++ hd [] (split_byte c b')] ++ tl (split_byte c b').
+Proof.
+  induction a as [|y a IH]; intros b'.
+  - simpl. destruct (split_nonempty c b') as (h & t & ->). reflexivity.
+  - rewrite <- app_comm_cons. rewrite (split_cons c y (a ++ b')), (split_cons c y a). rewrite IH.
+    destruct (split_nonempty c a) as (cur & rest & ->).
+    destruct (split_nonempty c b') as (h & t & ->). simpl hd. simpl tl.
+    destruct rest as [|r0 rest'].
+    + simpl. destruct (y =? c); reflexivity.
+    + change (removelast (cur :: r0 :: rest')) with (cur :: removelast (r0 :: rest')).
+      change (last (cur :: r0 :: rest') []) with (last (r0 :: rest') []).
+      simpl app at 1.
+      destruct (y =? c).
+      * change (removelast ([] :: cur :: r0 :: rest')) with ([] :: cur :: removelast (r0 :: rest')).
+        change (last ([] :: cur :: r0 :: rest') []) with (last (r0 :: rest') []). reflexivity.
+      * change (removelast ((y :: cur) :: r0 :: rest')) with ((y :: cur) :: removelast (r0 :: rest')).
+        change (last ((y :: cur) :: r0 :: rest') []) with (last (r0 :: rest') []). reflexivity.
+Qed.
+Lemma split_rev c s : split_byte c (rev s) = rv (split_byte c s).
+Proof.
+  unfold rv. induction s as [|x s IH]; [reflexivity|].
+  simpl rev. rewrite split_app, IH, split_cons. destruct (split_nonempty c s) as (cur & rest & ->).
+  simpl map. simpl rev. rewrite removelast_last, last_last.
+  destruct (x =? c) eqn:Ex.
+  - simpl. rewrite app_nil_r, <- app_assoc. reflexivity.
+  - simpl. reflexivity.
+Qed.
+
+Lemma reverse_fqdn_strip h : reverse_fqdn h = rev (strip_dot h).
+Proof.
+  unfold reverse_fqdn, strip_dot. destruct (rev h) as [|x r] eqn:E; [reflexivity|].
+  destruct (x =? DOT); [rewrite rev_involutive; reflexivity|symmetry; exact E].
+Qed.
+Lemma host_path_rv h : host_path h = rv (labels h).
+Proof. unfold host_path, labels. rewrite reverse_fqdn_strip. apply split_rev. Qed.
+Lemma rev_inj {A} (a b : list A) : rev a = rev b -> a = b.
+Proof. intros H. rewrite <- (rev_involutive a), <- (rev_involutive b), H. reflexivity. Qed.
+Lemma rv_inj a b : rv a = rv b -> a = b.
+Proof.
+  unfold rv. intros H. apply rev_inj in H. apply (f_equal (map (@rev Z))) in H.
+  rewrite !map_map in H. rewrite (map_ext _ (fun x => x)) in H by (intros; apply rev_involutive).
+  rewrite (map_ext (fun x => rev (rev x)) (fun x => x)) in H by (intros; apply rev_involutive).
+  rewrite !map_id in H. exact H.
+Qed.
+Lemma paths_eqb_rv a b : paths_eqb (rv a) (rv b) = paths_eqb a b.
+Proof.
+  destruct (paths_eqb a b) eqn:E.
+  - apply paths_eqb_eq in E. subst. apply paths_eqb_eq. reflexivity.
+  - destruct (paths_eqb (rv a) (rv b)) eqn:E2; [|reflexivity]. apply paths_eqb_eq in E2. apply rv_inj in E2.
+    subst. assert (H : paths_eqb b b = true) by (apply paths_eqb_eq; reflexivity). congruence.
+Qed.
+Lemma is_star_rev l : is_star (rev l) = is_star l.
+Proof.
+  unfold is_star. destruct (bytes_eqb l star) eqn:E.
+  - apply bytes_eqb_eq in E. subst. reflexivity.
+  - destruct (bytes_eqb (rev l) star) eqn:E2; [|reflexivity]. apply bytes_eqb_eq in E2.
+    assert (l = star) by (apply rev_inj; rewrite E2; reflexivity). subst. discriminate.
+Qed.
+Lemma rv_cons x r : rv (x :: r) = rv r ++ [rev x].
+Proof. reflexivity. Qed.
+Lemma valid_path_snoc p x : valid_path (p ++ [x]) = forallb (fun l => negb (is_star l)) p.
+Proof.
+  induction p as [|k p IH]; simpl.
+  - rewrite andb_false_r. reflexivity.
+  - rewrite IH. destruct (p ++ [x]) eqn:E; [destruct p; discriminate|]. simpl. rewrite andb_true_r. reflexivity.
+Qed.
+Lemma forallb_rv r : forallb (fun l => negb (is_star l)) (rv r) = forallb (fun l => negb (is_star l)) r.
+Proof.
+  induction r as [|a r IH]; [reflexivity|]. rewrite rv_cons, forallb_app, IH. simpl.
+  rewrite is_star_rev, andb_true_r. apply andb_comm.
+Qed.
+Lemma valid_rv ls : valid_path (rv ls) = valid_labels ls.
+Proof. destruct ls as [|l0 r]; [reflexivity|]. rewrite rv_cons, valid_path_snoc. apply forallb_rv. Qed.
+Lemma spd_snoc l y : strict_prefixes_desc (l ++ [y]) = l :: strict_prefixes_desc l.
+Proof.
+  induction l as [|k l IH]; [reflexivity|]. simpl. rewrite IH. reflexivity.
+Qed.
+Lemma spd_rv q : strict_prefixes_desc (rv q) = map rv (proper_suffixes q).
+Proof.
+  induction q as [|x q IH]; [reflexivity|]. rewrite rv_cons, spd_snoc, IH. reflexivity.
+Qed.
+Lemma exact_rv tbl q : exact_of (map entry_path tbl) (rv q) = nat_exact tbl q.
+Proof.
+  unfold exact_of, nat_exact. induction tbl as [|e tbl IH]; [reflexivity|]. simpl. rewrite IH.
+  rewrite host_path_rv, valid_rv, paths_eqb_rv. reflexivity.
+Qed.
+(* the specification on trie paths is the specification on natural host labels *)
+Theorem spec_paths_natural tbl host :
+  spec_paths (map entry_path tbl) (req_path host) = spec_host tbl host.
+Proof.
+  unfold req_path, spec_host, spec_paths, wild_of. rewrite host_path_rv.
+  set (q := labels (strip_port (to_lower host))). rewrite exact_rv.
+  destruct (nat_exact tbl q); [reflexivity|]. rewrite spd_rv, first_some_map.
+  apply first_some_ext. intros suf. rewrite <- exact_rv. reflexivity.
+Qed.
+Theorem lookup_product_natural tbl vips dflt host vip :
+  lookup_product tbl vips dflt host vip = spec_product tbl vips dflt host vip.
+Proof.
+  rewrite priority_chain, spec_paths_natural. unfold chain, spec_product.
+  destruct (spec_host tbl host) as [[tag prod]|]; [reflexivity|]. destruct vip; reflexivity.
+Qed.
+
+
+(* ================= insertion order is irrelevant when the normalised hosts are distinct ================= *)
+(* buildHostRoute ranges over a Go map (random order).  For tables whose paths are pairwise distinct the result of
+   every lookup is the same for every insertion order. *)
+From Coq Require Import Permutation.
+Lemma nodup_key_unique (tbl : tbl_t) q v v' :
+  NoDup (map fst tbl) -> In (q, v) tbl -> In (q, v') tbl -> v = v'.
+Proof.
+  induction tbl as [|[p w] tbl IH]; simpl; [tauto|]. intros Hn H1 H2.
+  inversion Hn as [|x l Hnin Hnd]; subst.
+  destruct H1 as [H1|H1], H2 as [H2|H2].
+  - congruence.
+  - inversion H1; subst. exfalso. apply Hnin. apply (in_map fst) in H2. exact H2.
+  - inversion H2; subst. exfalso. apply Hnin. apply (in_map fst) in H1. exact H1.
+  - apply IH; assumption.
+Qed.
+Lemma exact_of_perm (tbl tbl' : tbl_t) q :
+  NoDup (map fst tbl) -> Permutation tbl tbl' -> exact_of tbl q = exact_of tbl' q.
+Proof.
+  intros Hn Hp.
+  assert (Hn' : NoDup (map fst tbl')) by (apply (Permutation_NoDup (Permutation_map fst Hp)); exact Hn).
+  destruct (exact_of tbl q) as [v|] eqn:E1; destruct (exact_of tbl' q) as [v'|] eqn:E2; try reflexivity.
+  - apply exact_of_sound in E1. apply exact_of_sound in E2. destruct E1 as [I1 _], E2 as [I2 _].
+    f_equal. apply (nodup_key_unique tbl' q v v' Hn'); [apply (Permutation_in _ Hp); exact I1|exact I2].
+  - apply exact_of_sound in E1. destruct E1 as [I1 V1].
+    pose proof (exact_of_complete _ _ E2 v (Permutation_in _ Hp I1)). congruence.
+  - apply exact_of_sound in E2. destruct E2 as [I2 V2].
+    pose proof (exact_of_complete _ _ E1 v' (Permutation_in _ (Permutation_sym Hp) I2)). congruence.
+Qed.
+Theorem spec_paths_perm (tbl tbl' : tbl_t) q :
+  NoDup (map fst tbl) -> Permutation tbl tbl' -> spec_paths tbl q = spec_paths tbl' q.
+Proof.
+  intros Hn Hp. unfold spec_paths, wild_of. rewrite (exact_of_perm tbl tbl' q Hn Hp).
+  destruct (exact_of tbl' q); [reflexivity|]. apply first_some_ext. intros pre. apply exact_of_perm; assumption.
+Qed.
+Theorem order_irrelevant (tbl tbl' : list host_entry) host :
+  NoDup (map (fun e => fst (entry_path e)) tbl) -> Permutation tbl tbl' ->
+  find_host_route tbl host = find_host_route tbl' host.
+Proof.
+  intros Hn Hp. rewrite !lookup_refines_spec. apply spec_paths_perm.
+  - rewrite map_map. exact Hn.
+  - apply Permutation_map. exact Hp.
+Qed.
+
+(* the executable property holds of the model on every well-formed input *)
+From Bfe Require Import run.RunC10.
+Lemma with_C10_ext f g i : (forall a b c d e, f a b c d e = g a b c d e) -> with_C10 f i = with_C10 g i.
+Proof.
+  intros H. unfold with_C10. destruct i as [z|bs|l]; try reflexivity.
+  destruct l as [|es [|vs [|d [|qs [|x l]]]]]; try reflexivity. destruct d; try reflexivity.
+  destruct (dec_list dec_entry es); try reflexivity. destruct (dec_list dec_pair vs); try reflexivity.
+  destruct (dec_list dec_pair qs); try reflexivity. f_equal. apply map_ext. intros q. rewrite H. reflexivity.
+Qed.
+Theorem prop_C10_of_model i : run_C10 i <> VErr 0 -> prop_C10 i (run_C10 i) = true.
+Proof.
+  unfold prop_C10, run_C10. intros Hne.
+  rewrite (with_C10_ext lookup_product spec_product i lookup_product_natural) in *.
+  set (s := with_C10 spec_product i) in *. clearbody s.
+  pose proof (val_eqb_refl s) as H.
+  destruct s as [z|bs|l]; try exact H.
+  destruct l as [|a l]; try exact H. destruct a as [z|bs|l']; try exact H.
+  destruct z as [|p|p]; try exact H. destruct p; try exact H.
+  destruct l as [|a2 l]; try exact H. destruct a2 as [z|bs|l']; try exact H.
+  destruct z; try exact H. destruct l; [|exact H]. exfalso. apply Hne. reflexivity.
+Qed.
